@@ -245,7 +245,32 @@ func genC15(c *Ctx) {
 		if len(parts) == 0 {
 			continue
 		}
-		c.Emit("cons "+strings.Join(parts, " "), len(parts) > 1)
+		line := "cons " + strings.Join(parts, " ")
+		out := c.Emit(line, len(parts) > 1)
+		// the property on this input, stated independently: an admitted asset has a loop of whole milliseconds, and every
+		// representation that is looped as it is (all but re-segmented, i.e. clear non-reference audio) lasts exactly that
+		if strings.HasPrefix(out, "ok loop=") {
+			var loop int
+			var ref string
+			fmt.Sscanf(out, "ok loop=%d ref=%s", &loop, &ref)
+			refKind := ""
+			for _, p := range parts {
+				f := strings.Split(p, ":")
+				if f[0] == ref {
+					refKind = f[1]
+				}
+			}
+			for _, p := range parts {
+				f := strings.Split(p, ":")
+				d, _ := strconv.ParseUint(f[2], 10, 64)
+				ts, _ := strconv.ParseUint(f[3], 10, 64)
+				resegmented := f[1] == "audio" && refKind != "audio" && f[4] != "1"
+				if !resegmented && d*1000 != uint64(loop)*ts {
+					c.Violate("admitted-with-other-duration", fmt.Sprintf("asset admitted with a loop of %d ms although representation %s (%s, looped as it is) lasts %d/%d s", loop, f[0], f[1], d, ts), []string{line}, nil)
+					break
+				}
+			}
+		}
 	}
 	c15Servers(c)
 }
